@@ -167,6 +167,10 @@ def run_leaves(w0, a, max_leaves=MAX_LEAVES):
         script = stack.pop()
         w = w0.clone()
         res = w.apply(a, script)
+        if res.exc_type == "ActionTimeout" and not (a[0] == "op" and a[3] == "FLowerX"):
+            # a slow machine must not look like a livelock: confirm on a fresh clone with a much longer budget
+            w = w0.clone()
+            res = w.apply(a, script, timeout=300.0)
         got = [c["chosen"] for c in res.calls]
         if got[:len(script)] != list(script):
             raise HarnessError(f"non-deterministic draw sequence for {a}: {script} vs {got}")
